@@ -95,8 +95,13 @@ func (c *FnCtx) callCommon(call *ssa.CallCommon, v ssa.Value, pos token.Pos) []s
 		if con.Trusted {
 			c.usedExternal[key] = true
 		}
-		return c.applyContract(con, callee, args, argTypes, sig, pos, mkResults, validateResults)
+		c.checkTypeInvsAtCall(callee, args, argTypes, pos)
+		out := c.applyContract(con, callee, args, argTypes, sig, pos, mkResults, validateResults)
+		c.flushPendingHavoc()
+		c.assumeTypeInvsAfterCall(callee, args, argTypes, out, sig)
+		return out
 	}
+	c.checkTypeInvsAtCall(callee, args, argTypes, pos)
 	// no contract: havoc what the callee may modify
 	out := mkResults("ret")
 	var mods map[string]bool
@@ -111,17 +116,35 @@ func (c *FnCtx) callCommon(call *ssa.CallCommon, v ssa.Value, pos token.Pos) []s
 	}
 	c.noteUncontracted(key, callee, call)
 	c.havocCall(mods, all, args, argTypes)
+	c.flushPendingHavoc()
 	validateResults(out)
+	c.assumeTypeInvsAfterCall(callee, args, argTypes, out, sig)
 	return out
 }
 
 func (c *FnCtx) argTerm(a ssa.Value) string {
-	if _, ok := c.addrs[a]; ok {
+	if ad, ok := c.addrs[a]; ok {
 		if _, ok2 := c.vals[a]; !ok2 {
-			unsupp("address of a local passed to a call (%s)", a.Name())
+			// a pointer into an object or array: passed as an opaque non-nil pointer; whatever it
+			// points into is havocked after the call
+			n := c.fresh("iptr")
+			c.declare(n, "Int")
+			c.assume(and(lt("0", n), le(n, c.alloc())))
+			c.pendingHavoc = append(c.pendingHavoc, ad.rootHeap())
+			return n
 		}
 	}
 	return c.term(a)
+}
+
+func (c *FnCtx) flushPendingHavoc() {
+	for _, h := range c.pendingHavoc {
+		if _, ok := c.heapSort[h]; ok {
+			c.heapGet(h, c.heapSort[h])
+			c.heapHavoc(h)
+		}
+	}
+	c.pendingHavoc = nil
 }
 
 func (c *FnCtx) noteUncontracted(key string, callee *ssa.Function, call *ssa.CallCommon) {
@@ -210,17 +233,32 @@ func (c *FnCtx) applyContract(con *Contract, callee *ssa.Function, args []string
 	if con.ModAll {
 		c.havocCall(nil, true, args, argTypes)
 	} else {
+		fr := c.modFrame(con, env)
 		mods := map[string]bool{}
-		for _, m := range con.Modifies {
-			for _, h := range c.expandModifies(m) {
-				mods[h] = true
-			}
-		}
-		for h := range mods {
-			c.heapGet(h, c.heapSort[h])
-			c.prevHeap[h] = c.cur[h]
+		before := map[string]string{}
+		for h := range fr {
+			mods[h] = true
+			before[h] = c.heapGet(h, c.heapSort[h])
 		}
 		c.havocCall(mods, false, args, argTypes)
+		// objects not named by the modifies clause keep their state
+		var hs []string
+		for h := range fr {
+			hs = append(hs, h)
+		}
+		sort.Strings(hs)
+		for _, h := range hs {
+			refs := fr[h]
+			if refs == nil || h == "ALLOC" {
+				continue
+			}
+			r := c.fresh("r")
+			var ne []string
+			for _, x := range refs {
+				ne = append(ne, not(eq(r, x)))
+			}
+			c.assume(forall([][2]string{{r, "Int"}}, implies(and(ne...), eq(sel(c.cur[h], r), sel(before[h], r))), sel(c.cur[h], r)))
+		}
 	}
 	_ = preAlloc
 	out := mkResults("ret")
@@ -245,6 +283,97 @@ func (c *FnCtx) applyContract(con *Contract, callee *ssa.Function, args []string
 		c.assumeAt(c.guard(), t)
 	}
 	return out
+}
+
+// modFrame evaluates a contract's modifies clause in env (pre-state): heap -> list of object
+// references that may change (nil = the whole heap).
+func (c *FnCtx) modFrame(con *Contract, env *specEnv) map[string][]string {
+	fr := map[string][]string{}
+	addRef := func(h, srt, ref string) {
+		c.heapDecl(h, srt)
+		if refs, ok := fr[h]; ok && refs == nil {
+			return
+		}
+		fr[h] = append(fr[h], ref)
+	}
+	saved := c.cur
+	c.cur = env.heap.clone()
+	defer func() { c.cur = saved }()
+	for _, it := range con.ModItems {
+		if it.Heap != "" {
+			for _, h := range c.expandModifies(it.Heap) {
+				fr[h] = nil
+			}
+			continue
+		}
+		func() {
+			defer func() {
+				if r := recover(); r != nil {
+					if se, ok := r.(specErr); ok {
+						unsupp("modifies %s: %s", it.Text, se.msg)
+					}
+					panic(r)
+				}
+			}()
+			switch n := it.E.(type) {
+			case *ESel:
+				b := env.eval(n.X)
+				pt, ok := types.Unalias(b.ty).Underlying().(*types.Pointer)
+				if !ok {
+					specFail("not a pointer")
+				}
+				st, ok := types.Unalias(pt.Elem()).Underlying().(*types.Struct)
+				if !ok {
+					specFail("not a struct pointer")
+				}
+				for i := 0; i < st.NumFields(); i++ {
+					if st.Field(i).Name() == n.Name {
+						h := heapField(pt.Elem(), i)
+						addRef(h, "(Array Int "+c.sorts.sortOf(st.Field(i).Type())+")", b.t)
+						return
+					}
+				}
+				specFail("no field %s", n.Name)
+			case *ECall:
+				if len(n.Args) != 1 {
+					specFail("bad modifies item")
+				}
+				a := env.eval(n.Args[0])
+				switch n.Fun {
+				case "elems":
+					stt, ok := types.Unalias(a.ty).Underlying().(*types.Slice)
+					if !ok {
+						specFail("elems of non-slice")
+					}
+					hn, hs := c.elemHeap(stt.Elem())
+					addRef(hn, hs, app("s-arr", a.t))
+				case "entries":
+					mt, ok := types.Unalias(a.ty).Underlying().(*types.Map)
+					if !ok {
+						specFail("entries of non-map")
+					}
+					d, v, l := c.mapHeaps(mt)
+					addRef(d, c.heapSort[d], a.t)
+					addRef(v, c.heapSort[v], a.t)
+					addRef(l, c.heapSort[l], a.t)
+				case "bigval":
+					addRef("BIG", "(Array Int Int)", a.t)
+				case "cell":
+					pt, ok := types.Unalias(a.ty).Underlying().(*types.Pointer)
+					if !ok {
+						specFail("cell of non-pointer")
+					}
+					h := heapCell(pt.Elem())
+					addRef(h, "(Array Int "+c.sorts.sortOf(pt.Elem())+")", a.t)
+				default:
+					specFail("bad modifies item")
+				}
+			default:
+				specFail("bad modifies item")
+			}
+		}()
+	}
+	return fr
 }
 
 // expandModifies maps a modifies item to heap variable names. Items are heap names
@@ -302,7 +431,10 @@ func (c *FnCtx) builtin(b *ssa.Builtin, call *ssa.CallCommon, v ssa.Value, pos t
 		if b.Name() == "max" {
 			f = "imax"
 		}
-		if basicInfo(args[0].Type())&types.IsInteger == 0 {
+		if basicInfo(args[0].Type())&types.IsFloat != 0 {
+			f = "f64_" + b.Name()
+			c.declareFun(f, []string{"F64", "F64"}, "F64")
+		} else if basicInfo(args[0].Type())&types.IsInteger == 0 {
 			break
 		}
 		r := c.term(args[0])
@@ -475,7 +607,128 @@ func (c *FnCtx) pkgTypes() *types.Package {
 	return nil
 }
 
+// ---------- type invariants ----------
+
+func (c *FnCtx) typeInvsFor(t types.Type) []*TypeInv {
+	var out []*TypeInv
+	for _, ti := range c.eng.specs.TypeInvs {
+		pkg := c.eng.pkgs[ti.Pkg]
+		if pkg == nil {
+			continue
+		}
+		tt, err := c.eng.tryResolveType(pkg.Pkg, ti.Type)
+		if err != nil {
+			continue
+		}
+		if types.Identical(types.Unalias(t), tt) {
+			out = append(out, ti)
+		}
+	}
+	return out
+}
+
+func (c *FnCtx) evalTypeInv(ti *TypeInv, term string, t types.Type, heap, old heapState) (string, error) {
+	env := &specEnv{c: c, vars: map[string]sv{ti.Var: {term, t}}, heap: heap, old: old}
+	if p := c.eng.pkgs[ti.Pkg]; p != nil {
+		env.pkg = p.Pkg
+	}
+	return env.evalBool(ti.Clause.E)
+}
+
+func (c *FnCtx) noInv() bool { return c.con != nil && c.con.Flags["noinv"] }
+
+func (c *FnCtx) assumeTypeInvsAtEntry() {
+	if c.noInv() {
+		return
+	}
+	for _, p := range c.fn.Params {
+		for _, ti := range c.typeInvsFor(p.Type()) {
+			t, err := c.evalTypeInv(ti, c.vals[p], p.Type(), c.entry, nil)
+			if err != nil {
+				c.attachErr = fmt.Sprintf("type invariant line %d: %v", ti.Clause.Line, err)
+				continue
+			}
+			c.assume(implies(not(eq(c.vals[p], "0")), t))
+		}
+	}
+}
+
+func (c *FnCtx) checkTypeInvsAtReturn(x *ssa.Return) {
+	if c.noInv() {
+		return
+	}
+	check := func(term string, t types.Type, what string) {
+		for _, ti := range c.typeInvsFor(t) {
+			g, err := c.evalTypeInv(ti, term, t, c.cur, c.entry)
+			if err != nil {
+				c.attachErr = fmt.Sprintf("type invariant line %d: %v", ti.Clause.Line, err)
+				continue
+			}
+			props := ti.Clause.Props
+			if len(props) == 0 && c.opts != nil {
+				props = c.opts.props
+			}
+			c.oblige("type-invariant", props, and(c.guard(), not(eq(term, "0"))), g, x.Pos(), ti.Clause, "invariant of "+ti.Type+" for "+what+": "+ti.Clause.Text)
+		}
+	}
+	for _, p := range c.fn.Params {
+		check(c.vals[p], p.Type(), p.Name())
+	}
+	for i, r := range x.Results {
+		if len(c.typeInvsFor(r.Type())) > 0 {
+			check(c.term(r), r.Type(), fmt.Sprintf("result %d", i))
+		}
+	}
+}
+
+func (c *FnCtx) checkTypeInvsAtCall(callee *ssa.Function, args []string, argTypes []types.Type, pos token.Pos) {
+	if callee == nil || !c.eng.ownPkgFn(callee) {
+		return
+	}
+	if con := c.eng.contractFor(callee); con != nil && con.Flags["noinv"] {
+		return
+	}
+	for i, a := range args {
+		for _, ti := range c.typeInvsFor(argTypes[i]) {
+			g, err := c.evalTypeInv(ti, a, argTypes[i], c.cur, c.entry)
+			if err != nil {
+				continue
+			}
+			props := ti.Clause.Props
+			if len(props) == 0 && c.opts != nil {
+				props = c.opts.props
+			}
+			c.oblige("type-invariant-at-call", props, and(c.guard(), not(eq(a, "0"))), g, pos, ti.Clause, "invariant of "+ti.Type+" when calling "+callee.Name()+": "+ti.Clause.Text)
+		}
+	}
+}
+
+func (c *FnCtx) assumeTypeInvsAfterCall(callee *ssa.Function, args []string, argTypes []types.Type, out []string, sig *types.Signature) {
+	if callee == nil || !c.eng.ownPkgFn(callee) {
+		return
+	}
+	if con := c.eng.contractFor(callee); con != nil && con.Flags["noinv"] {
+		return
+	}
+	for i, a := range args {
+		for _, ti := range c.typeInvsFor(argTypes[i]) {
+			if t, err := c.evalTypeInv(ti, a, argTypes[i], c.cur, c.entry); err == nil {
+				c.assumeAt(c.guard(), implies(not(eq(a, "0")), t))
+			}
+		}
+	}
+	for i, r := range out {
+		rt := sig.Results().At(i).Type()
+		for _, ti := range c.typeInvsFor(rt) {
+			if t, err := c.evalTypeInv(ti, r, rt, c.cur, c.entry); err == nil {
+				c.assumeAt(c.guard(), implies(not(eq(r, "0")), t))
+			}
+		}
+	}
+}
+
 func (c *FnCtx) assumeRequires() {
+	c.assumeTypeInvsAtEntry()
 	if c.con == nil {
 		return
 	}
@@ -520,6 +773,7 @@ func (c *FnCtx) resolverAtEntry() func(string) (sv, bool) {
 
 func (c *FnCtx) instrReturn(x *ssa.Return) {
 	c.retCount++
+	c.checkTypeInvsAtReturn(x)
 	if c.con == nil {
 		return
 	}
